@@ -4,8 +4,9 @@
      crossing_edge_two_halves  end point inside the cell, start point beyond x = 0 (crossing = (1,0)):
                                exactly the two translates (0,0) and (1,0) — "both halves, each once"
      invisible_outside         a segment strictly beyond one cell line is not drawn
-   (the other three directions are the same argument; the measure statement for every direction,
-   corner crossings included, is CoverFacts.drawn_in_full / PlotGlueFacts.plot_edges_total_length) *)
+     crossing_edge_two_halves_xhi / _ylo / _yhi   the other three directions (crossing (-1,0), (0,1), (0,-1))
+   (edges crossing two cell lines — up to three translates — are covered in measure by
+   CoverFacts.drawn_in_full / PlotGlueFacts.plot_edges_total_length) *)
 From Coq Require Import List ZArith QArith Bool Qminmax Qabs Lqa Lia.
 From Koala Require Import Model.Clip Model.Plot Proofs.ClipFacts Proofs.VisFacts Proofs.CoverFacts.
 Import ListNotations.
@@ -138,6 +139,96 @@ Proof.
   replace (visible (seg_translate s (zpoint (0, 1)%Z))) with false by (symmetry; outside_y s 0%Z 1%Z).
   replace (visible (seg_translate s (zpoint (1, -1)%Z))) with false by (symmetry; outside_y s 1%Z (-1)%Z).
   replace (visible (seg_translate s (zpoint (1, 1)%Z))) with false by (symmetry; outside_y s 1%Z 1%Z).
+  reflexivity.
+Qed.
+
+
+(* ---------- the other three directions ---------- *)
+
+(* crossing (-1,0): the unwrapped start point lies beyond x = 1 *)
+Theorem crossing_edge_two_halves_xhi (s : seg) :
+  1 < px (seg_start s) -> px (seg_start s) < 2 -> open01 (py (seg_start s)) ->
+  open01 (px (seg_end s)) -> open01 (py (seg_end s)) ->
+  filter (fun d => visible (seg_translate s (zpoint d))) nine = [(-1, 0)%Z; (0, 0)%Z].
+Proof.
+  intros A0 A1 [B0 B1] [C0 C1] [D0 D1].
+  assert (V0 : visible (seg_translate s (zpoint (0, 0)%Z)) = true).
+  { unfold visible, lines_cross_unit_cell.
+    destruct (translate_coords s 0 0) as (-> & -> & -> & ->). change (inject_Z 0) with 0.
+    rewrite (cross_test_true 1 (px (seg_start s) + 0) (px (seg_end s) + 0) (py (seg_start s) + 0) (py (seg_end s) + 0));
+      [rewrite ?orb_true_r; reflexivity|right; lra|split; lra|split; lra]. }
+  assert (V1 : visible (seg_translate s (zpoint (-1, 0)%Z)) = true).
+  { unfold visible, lines_cross_unit_cell.
+    destruct (translate_coords s (-1) 0) as (-> & -> & -> & ->). change (inject_Z 0) with 0. change (inject_Z (-1)) with (-(1)).
+    rewrite (cross_test_true 0 (px (seg_start s) + -(1)) (px (seg_end s) + -(1)) (py (seg_start s) + 0) (py (seg_end s) + 0));
+      [rewrite ?orb_true_r; reflexivity|right; lra|split; lra|split; lra]. }
+  unfold nine. cbn [filter].
+  rewrite V0, V1.
+  replace (visible (seg_translate s (zpoint (-1, -1)%Z))) with false by (symmetry; outside_y s (-1)%Z (-1)%Z).
+  replace (visible (seg_translate s (zpoint (-1, 1)%Z))) with false by (symmetry; outside_y s (-1)%Z 1%Z).
+  replace (visible (seg_translate s (zpoint (0, -1)%Z))) with false by (symmetry; outside_y s 0%Z (-1)%Z).
+  replace (visible (seg_translate s (zpoint (0, 1)%Z))) with false by (symmetry; outside_y s 0%Z 1%Z).
+  replace (visible (seg_translate s (zpoint (1, -1)%Z))) with false by (symmetry; outside_x s 1%Z (-1)%Z).
+  replace (visible (seg_translate s (zpoint (1, 0)%Z))) with false by (symmetry; outside_x s 1%Z 0%Z).
+  replace (visible (seg_translate s (zpoint (1, 1)%Z))) with false by (symmetry; outside_x s 1%Z 1%Z).
+  reflexivity.
+Qed.
+
+(* crossing (0,1): the unwrapped start point lies beyond y = 0 *)
+Theorem crossing_edge_two_halves_ylo (s : seg) :
+  open01 (px (seg_start s)) -> -(1) < py (seg_start s) -> py (seg_start s) < 0 ->
+  open01 (px (seg_end s)) -> open01 (py (seg_end s)) ->
+  filter (fun d => visible (seg_translate s (zpoint d))) nine = [(0, 0)%Z; (0, 1)%Z].
+Proof.
+  intros [A0 A1] B0 B1 [C0 C1] [D0 D1].
+  assert (V0 : visible (seg_translate s (zpoint (0, 0)%Z)) = true).
+  { unfold visible, lines_cross_unit_cell.
+    destruct (translate_coords s 0 0) as (-> & -> & -> & ->). change (inject_Z 0) with 0.
+    rewrite (cross_test_true 0 (py (seg_start s) + 0) (py (seg_end s) + 0) (px (seg_start s) + 0) (px (seg_end s) + 0));
+      [rewrite ?orb_true_r; reflexivity|left; lra|split; lra|split; lra]. }
+  assert (V1 : visible (seg_translate s (zpoint (0, 1)%Z)) = true).
+  { unfold visible, lines_cross_unit_cell.
+    destruct (translate_coords s 0 1) as (-> & -> & -> & ->). change (inject_Z 0) with 0. change (inject_Z 1) with 1.
+    rewrite (cross_test_true 1 (py (seg_start s) + 1) (py (seg_end s) + 1) (px (seg_start s) + 0) (px (seg_end s) + 0));
+      [rewrite ?orb_true_r; reflexivity|left; lra|split; lra|split; lra]. }
+  unfold nine. cbn [filter].
+  rewrite V0, V1.
+  replace (visible (seg_translate s (zpoint (-1, -1)%Z))) with false by (symmetry; outside_x s (-1)%Z (-1)%Z).
+  replace (visible (seg_translate s (zpoint (-1, 0)%Z))) with false by (symmetry; outside_x s (-1)%Z 0%Z).
+  replace (visible (seg_translate s (zpoint (-1, 1)%Z))) with false by (symmetry; outside_x s (-1)%Z 1%Z).
+  replace (visible (seg_translate s (zpoint (0, -1)%Z))) with false by (symmetry; outside_y s 0%Z (-1)%Z).
+  replace (visible (seg_translate s (zpoint (1, -1)%Z))) with false by (symmetry; outside_x s 1%Z (-1)%Z).
+  replace (visible (seg_translate s (zpoint (1, 0)%Z))) with false by (symmetry; outside_x s 1%Z 0%Z).
+  replace (visible (seg_translate s (zpoint (1, 1)%Z))) with false by (symmetry; outside_x s 1%Z 1%Z).
+  reflexivity.
+Qed.
+
+(* crossing (0,-1): the unwrapped start point lies beyond y = 1 *)
+Theorem crossing_edge_two_halves_yhi (s : seg) :
+  open01 (px (seg_start s)) -> 1 < py (seg_start s) -> py (seg_start s) < 2 ->
+  open01 (px (seg_end s)) -> open01 (py (seg_end s)) ->
+  filter (fun d => visible (seg_translate s (zpoint d))) nine = [(0, -1)%Z; (0, 0)%Z].
+Proof.
+  intros [A0 A1] B0 B1 [C0 C1] [D0 D1].
+  assert (V0 : visible (seg_translate s (zpoint (0, 0)%Z)) = true).
+  { unfold visible, lines_cross_unit_cell.
+    destruct (translate_coords s 0 0) as (-> & -> & -> & ->). change (inject_Z 0) with 0.
+    rewrite (cross_test_true 1 (py (seg_start s) + 0) (py (seg_end s) + 0) (px (seg_start s) + 0) (px (seg_end s) + 0));
+      [rewrite ?orb_true_r; reflexivity|right; lra|split; lra|split; lra]. }
+  assert (V1 : visible (seg_translate s (zpoint (0, -1)%Z)) = true).
+  { unfold visible, lines_cross_unit_cell.
+    destruct (translate_coords s 0 (-1)) as (-> & -> & -> & ->). change (inject_Z 0) with 0. change (inject_Z (-1)) with (-(1)).
+    rewrite (cross_test_true 0 (py (seg_start s) + -(1)) (py (seg_end s) + -(1)) (px (seg_start s) + 0) (px (seg_end s) + 0));
+      [rewrite ?orb_true_r; reflexivity|right; lra|split; lra|split; lra]. }
+  unfold nine. cbn [filter].
+  rewrite V0, V1.
+  replace (visible (seg_translate s (zpoint (-1, -1)%Z))) with false by (symmetry; outside_x s (-1)%Z (-1)%Z).
+  replace (visible (seg_translate s (zpoint (-1, 0)%Z))) with false by (symmetry; outside_x s (-1)%Z 0%Z).
+  replace (visible (seg_translate s (zpoint (-1, 1)%Z))) with false by (symmetry; outside_x s (-1)%Z 1%Z).
+  replace (visible (seg_translate s (zpoint (0, 1)%Z))) with false by (symmetry; outside_y s 0%Z 1%Z).
+  replace (visible (seg_translate s (zpoint (1, -1)%Z))) with false by (symmetry; outside_x s 1%Z (-1)%Z).
+  replace (visible (seg_translate s (zpoint (1, 0)%Z))) with false by (symmetry; outside_x s 1%Z 0%Z).
+  replace (visible (seg_translate s (zpoint (1, 1)%Z))) with false by (symmetry; outside_x s 1%Z 1%Z).
   reflexivity.
 Qed.
 
